@@ -89,6 +89,15 @@ class LabelScheduleSource(ScheduleSource):
                 continue
 
             schedule_list = task.labels.get("schedule", []).copy()
+            # Several entries may have the same time. Remove the very entry
+            # this schedule was created from, if we know it.
+            for known_schedule, known_id in self._known_schedules:
+                if known_id != scheduled_task.schedule_id:
+                    continue
+                for idx, schedule in enumerate(schedule_list):
+                    if schedule is known_schedule:
+                        task.labels.get("schedule", []).pop(idx)
+                        return
             for idx, schedule in enumerate(schedule_list):
                 if schedule.get("time") == scheduled_task.time:
                     task.labels.get("schedule", []).pop(idx)
